@@ -9,7 +9,7 @@ PROP = {
     "rule": "one batch = one generated hierarchy + 80 generated types of the C17 sub-grammar (primitives, string/int/bool literals incl. quotes and escapes, unions, optionals, arrays, table<K,V>, records with optional / integer / quoted / index-signature fields, class / alias / enum references), depth <= 4 (5 for a third of thorough batches); "
             "one evaluation = one type whose rendering is not truncated; distinct = FNV of the printed annotation; non-trivial = type AST has >= 3 nodes; "
             "renderings containing the truncation marker `...` outside string literals and the multi-line expanded member view of a top-level class/enum are skipped and counted (skipped:*)",
-    "min_nontrivial": {"quick": 8000, "thorough": 150000},
+    "min_nontrivial": {"quick": 30000, "thorough": 500000},
     "max_secs": {"quick": 60, "thorough": 900},
     "require_clauses": ["a:structural-roundtrip", "b:rerender-equal", "rendered", "skipped:truncated", "family:string-literal", "family:array-of-union", "family:record"],
     "assumptions": COMMON_ASSUME + [
